@@ -302,7 +302,7 @@ Definition edit_start (content : list N) (ln ch : N) (c : cctx) : option Z :=
             if has_prefix_b dir_commodity line then Some (zlen dir_commodity) else Some (find_commodity_start line byteCol)
         | CPayee =>
             match index_byte 32 (zfirstn byteCol line) with
-            | None => Some 0
+            | None => Some byteCol          (* the cursor is still inside the date *)
             | Some sp =>
                 let s0 := Z.of_nat (S sp) in
                 let extra := span_while (fun x => ((x =? 32) || (x =? 42) || (x =? 33))%N)
@@ -311,7 +311,8 @@ Definition edit_start (content : list N) (ln ch : N) (c : cctx) : option Z :=
             end
         | _ => None
         end in
-      option_map (fun sb => byte_to_u16 line 0 0 sb) startByte
+      (* the edit never starts behind the cursor *)
+      option_map (fun sb => byte_to_u16 line 0 0 (Z.min sb byteCol)) startByte
   end.
 
 Definition cut_prefix (p s : list N) : option (list N) := if has_prefix_b p s then Some (skipn (length p) s) else None.
